@@ -226,11 +226,16 @@ def pipeline(job, work, canary=False, only_property=None, noslice=False):
         return 'DRIFT', [], 'CONTRACT-DRIFT ' + str(ex), cmds, 0, {}, ''
     base = cfile[:-2]
     gb = base + '.gb'
-    cmd = ['goto-cc', '-I', os.path.join(VERIF, 'spec'), '--function', job.entry, cfile, '-o', gb]
+    cmd = ['goto-cc', '-Wall', '-I', os.path.join(VERIF, 'spec'), '--function', job.entry, cfile, '-o', gb]
     cmds.append(' '.join(cmd))
     rc, out, err, _ = run(cmd, timeout=300)
     if rc != 0:
         return 'ERROR', [], 'goto-cc failed: ' + (err or out)[-1500:], cmds, 0, info, ''
+    # soundness guard: a call before the callee's declaration makes the callee implicitly `int` in C (64-bit results silently truncated);
+    # goto-cc only warns, and only with -Wall
+    undeclared = sorted(set(re.findall(r"function '(\w+)' is not declared", (out or '') + (err or ''))))
+    if undeclared:
+        return 'ERROR', [], 'generated C calls function(s) before their declaration (implicit int): %s' % ', '.join(undeclared), cmds, 0, info, ''
     target = gb
     if job.enforce or job.replace or job.loop_contracts:
         gb2 = base + '.dfcc.gb'
